@@ -466,3 +466,32 @@ pub proof fn lemma_no_merged_push(g: Seq<Expression>, e: Expression)
         }
     }
 }
+
+// ---- regex members: each regex was built from its own text with its case flag (what into_identifier establishes)
+pub open spec fn regex_from(r: Regex, ci: bool) -> bool { regex_of(regex_text(&r), ci) == Some(r) }
+pub open spec fn regexes_from(rs: Seq<Regex>, ci: bool) -> bool { forall|i: int| 0 <= i < rs.len() ==> regex_from(#[trigger] rs[i], ci) }
+
+// a set rebuilt from the texts of such regexes, with the same flag, accepts what some member accepts
+pub proof fn lemma_rs_any(s: &RegexSet, ts: Seq<String>, rs: Seq<Regex>, ci: bool)
+    requires
+        rs_of(s, texts(ts), ci), regexes_from(rs, ci),
+        ts.len() == rs.len(), forall|i: int| 0 <= i < rs.len() ==> (#[trigger] ts[i])@ == regex_text(&rs[i]),
+    ensures
+        forall|x: Seq<char>| #[trigger] regexset_is_match(s, x) == any_regex(rs, x),
+{
+    let pats = texts(ts);
+    assert forall|x: Seq<char>| #[trigger] regexset_is_match(s, x) == any_regex(rs, x) by {
+        assert forall|i: int| 0 <= i < rs.len() implies pat_lang(#[trigger] pats[i], ci, x) == regex_is_match(&rs[i], x) by {
+            assert(pats[i] == ts[i]@);
+            assert(regex_from(rs[i], ci));
+        }
+        if exists|i: int| 0 <= i < pats.len() && pat_lang(#[trigger] pats[i], ci, x) {
+            let i = choose|i: int| 0 <= i < pats.len() && pat_lang(#[trigger] pats[i], ci, x);
+            assert(regex_is_match(&rs[i], x));
+        }
+        if any_regex(rs, x) {
+            let i = choose|i: int| 0 <= i < rs.len() && regex_is_match(&#[trigger] rs[i], x);
+            assert(pat_lang(pats[i], ci, x));
+        }
+    }
+}
